@@ -117,6 +117,7 @@ async def scenario(loop, plan, r, out):
         if plan.get("use"):
             if not await step("use", use):
                 return
+        bg_tasks = []
         if plan["second"] == "reset":
             if not await step("reset", lambda: ezsp.reset()):
                 return
@@ -135,10 +136,22 @@ async def scenario(loop, plan, r, out):
                 return
         else:
             ezsp.stop_ezsp()
+            if plan.get("bg"):
+                # other tasks (a watchdog, a sender) issue commands while EZSP is stopped for the reset: they are refused at
+                # once - they must not linger and go out later in a framing that is no longer valid
+                t_bg = loop.time()
+                for _ in range(3):
+                    bg_tasks.append(asyncio.ensure_future(ezsp.nop()))
+                await asyncio.sleep(0)
+                await asyncio.sleep(0)
+                out["bg_refused_at_once"] = all(t_.done() and not t_.cancelled() and t_.exception() is not None for t_ in bg_tasks)
             if sp2 := plan.get("spont2"):
                 loop.call_later(0.3 if sp2 == "seen" else 1.3, stack.spontaneous_rstack)
             if not await step("startup_reset2", lambda: ezsp.startup_reset()):
                 return
+        for t_ in bg_tasks:
+            if not t_.done():
+                t_.cancel()
         out["version_after_second"] = (ezsp.ezsp_version, type(ezsp._protocol).VERSION)
         if not await step("write_config2", lambda: ezsp.write_config({})):
             return
@@ -235,6 +248,10 @@ def check(plan) -> Result:
     r.cls(vtag, "path:" + plan["path"], "second:" + plan["second"], "spont:" + plan.get("spont", "absent"))
     if plan.get("announce") is not None:
         r.cls("reboot-announced-before-handshake")
+    if plan.get("bg") and "bg_refused_at_once" in out:
+        r.cls("commands-issued-while-stopped")
+        if not out["bg_refused_at_once"]:
+            r.bad("C09:command-not-refused-while-stopped", f"a command issued while EZSP was stopped for the reset did not raise at once; plan {plan}")
     if faults:
         r.cls("faults")
         for _, k, fk in faults:
@@ -268,6 +285,7 @@ def plans(draw):
         plan["fn"] = draw(st.lists(fate, max_size=30))
     else:
         plan["use"] = draw(st.booleans())
+        plan["bg"] = draw(st.integers(0, 3)) == 0
         if path == "serial" and draw(st.integers(0, 3)) == 0:
             plan["announce"] = draw(st.sampled_from([0x00, 0x01, 0x02, 0x03, 0x06, 0x09]))
         if plan["second"] == "reset":
@@ -296,6 +314,8 @@ def enum_plans(quick):
                         p["spont"] = sp
                     out.append(p)
                     out.append(dict(p, use=True))
+                    if second == "startup":
+                        out.append(dict(p, bg=True))
                     if path == "serial":
                         out.append(dict(p, announce=0x02))
                         out.append(dict(p, announce=0x01, use=True))
